@@ -1,8 +1,8 @@
 package probe
 
-// C17-R1 known finding (not repaired): LinearProbeHashTableIndex.UpdateEntry panics ("not implemented
-// yet"). Any update of a column indexed with the hash kind, and any rollback of such an update
-// (TransactionManager.Abort calls Index.UpdateEntry), kills the process.
+// C17-R1: LinearProbeHashTableIndex.UpdateEntry panicked ("not implemented yet") on the pinned tree. Any
+// update of a column indexed with the hash kind, and any rollback of such an update
+// (TransactionManager.Abort calls Index.UpdateEntry), killed the process.
 import (
 	"os"
 	"testing"
@@ -45,7 +45,16 @@ func TestC17HashIndexUpdateEntry(t *testing.T) {
 		}
 	}()
 	idx.UpdateEntry(oldT, rid, newT, rid, nil)
-	if got := idx.ScanKey(newT, nil); len(got) != 1 {
+	if got := idx.ScanKey(newT, nil); len(got) != 1 || got[0] != rid {
 		t.Fatalf("after UpdateEntry the new key maps to %v", got)
+	}
+	if got := idx.ScanKey(oldT, nil); len(got) != 0 {
+		t.Fatalf("after UpdateEntry the old key still maps to %v", got)
+	}
+	rid2 := page.RID{}
+	rid2.Set(5, 6)
+	idx.UpdateEntry(newT, rid, newT, rid2, nil) // row moved, key unchanged
+	if got := idx.ScanKey(newT, nil); len(got) != 1 || got[0] != rid2 {
+		t.Fatalf("after the row moved the key maps to %v, want %v", got, rid2)
 	}
 }
